@@ -8,6 +8,7 @@ import SJ.Proofs.ParsedFinite
 import SJ.Proofs.LexTopParser
 import SJ.Props.C03
 import SJ.Proofs.TypedSerClosed
+import SJ.Proofs.TypedFloatLink
 /-!
 # C04 — serialise then deserialise is the identity (the `Value` clause)
 
@@ -518,6 +519,38 @@ example : (serCompact ext0 (Model.TypedSer.progOf exSchema exTV)).map List.flatt
 example : ∃ bufs, serCompact ext0 (Model.TypedSer.progOf exSchema exTV) = .ok bufs ∧
     Model.Typed.deTypedTop { cfg := {}, src := .reader } exSchema bufs.flatten = .ok exTV :=
   c04_typed_partial {} rfl .reader ext0 ext0_ok exSchema (by decide) exTV (by decide) (by decide) (.inr (by decide))
+
+/-- **C04 (typed values), the `f32` leaf under `float_roundtrip`.** `to_string(x)` for a finite `x : f32` (the serializer
+    prints it with `ryu`'s binary32 digits) followed by `from_str::<f32>` returns `x`, bit for bit (`-0.0` and subnormals
+    included), from every source: the typed `f32` path (`single_precision`: parse straight to binary32, `Typed.f32Roundtrip`)
+    is lexical's correctly rounded conversion (`c07_typed_f32_link`, `c07_correct`), and `ryu`'s shortest digits round back
+    (`RyuShortest`). `f32` MEMBERS of containers are not covered by `c04_typed_partial` (its composition goes through
+    `from_value(to_value(x))`, and `to_value` widens an `f32` to an `f64` whose text differs). -/
+theorem c04_typed_f32_leaf (mcfg : Cfg) (hfr : mcfg.fr = true) (src : Src) (ext : Ext) (hext : ExtOK ext)
+    (hr : SJ.Proofs.LexTopRoundtrip.RyuShortest ext) (b : UInt32) (hb : Spec.Program.finite32 b = true) :
+    ∃ bufs, serCompact ext (Model.TypedSer.progOf .f32 (.f32 b)) = .ok bufs ∧
+      Model.Typed.deTypedTop { cfg := mcfg, src := src } .f32 bufs.flatten = .ok (.f32 b) := by
+  have himg : Spec.Image.image ext (Model.TypedSer.progOf .f32 (.f32 b)) = .ok (Spec.Image.numOf (ext.ryu32 b)) := by
+    simp [Model.TypedSer.progOf, Spec.Image.image, hb]
+  cases hser : serCompact ext (Model.TypedSer.progOf .f32 (.f32 b)) with
+  | error e =>
+    have := ((SJ.Props.C03.c03_error_iff ext hext _ e).1).1 hser
+    rw [himg] at this; cases this
+  | ok bufs =>
+    refine ⟨bufs, rfl, ?_⟩
+    obtain ⟨d, hd', htext, _⟩ := SJ.Props.C03.c03_compact ext hext _ rfl bufs hser
+    rw [himg] at hd'; cases hd'
+    rw [htext]
+    have htxt : Spec.Image.render (Spec.Image.numOf (ext.ryu32 b)) = ext.ryu32 b := by
+      simp only [Spec.Image.render, Spec.Image.numOf, Spec.Image.layoutWith]
+      exact SJ.Proofs.Number.splitNumber_bytes _
+    rw [htxt]
+    have := SJ.Proofs.TypedFloat.deNumber_f32_ryu { cfg := mcfg, src := src } rfl hfr ext hext hr b hb [] 0 (.inl rfl)
+    simp only [List.append_nil] at this
+    unfold Model.Typed.deTypedTop
+    have hsz : Model.Typed.Schema.size Schema.f32 + 1 = 1 + 1 := rfl
+    rw [hsz, SJ.Proofs.Typed.deTyped_f32, this]
+    simp [Model.Stream.skipWs]
 
 /-- `struct P { x: f64, n: Vec<u8> }` with `x = 1.5` (`ext0` prints `1.5`): the float hypothesis holds at this value (by
     evaluation of the default conversion on `1.5`), so the pair round-trips by the theorem -/
